@@ -288,6 +288,11 @@ def _run_one(check, case, tier, acc):
     return out
 
 
+def _cov_dump():
+    if os.environ.get('VERIF_COV') and 'cov' in sys.modules:
+        sys.modules['cov'].dump()
+
+
 def _shard(args):
     modname, tier, seed, shard, nshards, examples = args
     import importlib
@@ -318,6 +323,7 @@ def _shard(args):
             prop()
         except Exception:
             acc.harness.append('hypothesis driver: ' + traceback.format_exc()[-3000:])
+    _cov_dump()
     return acc
 
 
@@ -490,6 +496,7 @@ def main(modname, tier, replay=None):
         'wall_s': round(_time.time() - t0, 2),
         'violations': len(seen),
     }
+    _cov_dump()
     os.makedirs(os.path.join(ROOT, 'evidence'), exist_ok=True)
     tmp = os.path.join(ROOT, 'evidence', '%s.json.partial%d' % (pid, os.getpid()))
     with open(tmp, 'w') as f:
